@@ -25,7 +25,9 @@ HexFpEq(set, hex) == set = Lookup(hex)
 HexFpEmpty(hex) == hex = EmptyHex
 
 PartShapeEq(sp, lg) ==
-  /\ sp.t = lg.t /\ sp.x = lg.x /\ sp.y = lg.y /\ sp.hl = lg.hl
+  \* (the have_local hint of an outgoing part is not compared: it only asks the peer for a reply, and whether that reply
+  \*  was needed shows in the final sets - the next step is computed from the part as it was actually received)
+  /\ sp.t = lg.t /\ sp.x = lg.x /\ sp.y = lg.y
   /\ Len(sp.vals) = Len(lg.vals)
   /\ \A i \in 1..Len(sp.vals) : sp.vals[i].e = lg.vals[i].e /\ sp.vals[i].cs = lg.vals[i].cs
 ShapeEq(spec, logged) ==
